@@ -161,16 +161,14 @@ def make(targets, res: BuildResult, jobs=16, timeout=1500, clean=False):
     return True
 
 
-def scan_forbidden(res: BuildResult, pid: str | None = None):
+def scan_forbidden(res: BuildResult, dirs=None):
+    """dirs: sub-directories of theories/ to scan (None = all).  Every check scans Prelude, Gen, its own
+    directory and those of the properties it depends on; --setup scans everything."""
     for f in all_v_files():
-        if pid is not None and not f.startswith(("theories/Prelude/", "theories/Gen/", f"theories/{pid}/")):
-            # other properties' files are scanned by their own checks (and all of them by --setup)
-            deps = getattr(scan_forbidden, "extra", {}).get(pid, ())
-            if not f.startswith(tuple(f"theories/{d}/" for d in deps)) or not deps:
-                continue
+        if dirs is not None and not f.startswith(tuple(f"theories/{d}/" for d in dirs)):
+            continue
         text = (COQ / f).read_text()
-        # strip comments
-        text = re.sub(r"\(\*.*?\*\)", "", text, flags=re.S)
+        text = re.sub(r"\(\*.*?\*\)", "", text, flags=re.S)  # strip comments
         for m in FORBIDDEN_RE.finditer(text):
             res.forbidden.append(f"{f}: {m.group(0)}")
     if res.forbidden:
